@@ -122,6 +122,17 @@ CLAIMED.update({
   design="DESIGN.md §4.C10"),
 })
 
+CLAIMED.update({
+ "C11": dict(
+  text="Deductive proof of the clause 'accepted text is never silently altered': for every token the parser accepts as an intrinsic, the returned value is exactly the value the token text denotes under the (assumed) strconv contracts — "
+       "a conversion error can no longer be discarded (boolean, complex, float, hexadecimal, integer, nil, rune, string; 8 postconditions on parseIntrinsic, exceptional postcondition on checkLiteral) — for all token texts (symbolic). "
+       "Also proved (shared with C12): parseToken returns the token value and type it matched, tokens handed on are non-nil.",
+  note="NOT decided deductively: that every derivation of Syntax.cdsn is accepted with its intended collection (needs a soundness/completeness proof of the backtracking parser plus regexp ordered-alternation semantics), "
+       "that the push-back stack (capacity 4) never overflows, and independence from goroutine scheduling. A bounded stand-in for grammar acceptance is planned but not registered. "
+       "Assumed: strconv.Parse*/Unquote fail exactly when the text has no exact representation and otherwise return its value; MatchToken's first element is the token's match.",
+  design="DESIGN.md §4.C11"),
+})
+
 NOT_YET = {}
 
 TECH = "contract-based deductive verification: weakest-precondition style VCs generated from go/ssa of /repo, contracts in //go:build verif comment files, discharged by z3 5.1 / z3 4.8 / cvc5"
